@@ -253,6 +253,26 @@ def check(ctx):
                             xx, neg = norm_cond(x)
                             if neg and short(xx.get('ref', {}).get('n', '')) == 'is_in_check':
                                 flag_ok = True
+        # ... and only a quiet move: a capture or a promotion can be the one move that parries a mate threat while the material
+        # count says the side is lost anyway, so skipping it lets the node return a mate score that is not forced
+        from rules.norm import Norm as _Nq, Unknown as _Uq
+        nq = _Nq(s)
+        quiet = None
+        for c, t in gf:
+            try:
+                at = nq.atom(c, t)
+            except _Uq:
+                continue
+            if isinstance(at, tuple) and at[0] == 'truthy' and isinstance(at[1], str) and 'move_is_quiet(' in at[1]:
+                quiet = bool(at[2])
+        if quiet is None and gives and flag_ok:
+            kinds = [nq.s(c) for c, t in gf if any(w in nq.s(c) for w in ('move_is_capture(', 'promotion(', 'captured'))]
+            if kinds:
+                raise AnalysisBroken('C08: a move is skipped by pruning at %s under `%s`; whether that leaves only quiet moves to be skipped '
+                                     'is not something the rule evaluates' % (s.loc(cst), kinds[0][:100]))
+        ctx.ob('C08.R5.futility-skips-quiet-only', 'search:continue@%d' % cst.get('l', 0), quiet is True or not (gives and flag_ok),
+               'pruning skips a move only if it is quiet (no capture, no promotion): the defence against a mate threat that pruning must '
+               'not hide can be a capture', site=s.loc(cst))
         ctx.ob('C08.R5.futility-exempts-checks', 'search:continue', gives and flag_ok,
                'a move is skipped by futility pruning only if it does not give check and the side to move is not in check',
                site=s.loc(cst))
